@@ -174,6 +174,23 @@ func checkC13(w *Worker) {
 		x.Case(fmt.Sprint("wide", D, rep), true)
 		verify(x, appCase{Args: []string{"csv", "log"}, Files: map[string]string{"food.yaml": "", "log.yaml": sb.String()}}, want, 3, "log")
 	})
+	if w.Tier == "thorough" {
+		// all triples of names in one day (first-appearance order, merging, quoting of neighbours)
+		w.Explore("csv-log-name-triples", ExploreOpts{ShardDepth: 3}, func(x *Exec) {
+			n1 := c13Names[x.Choose(len(c13Names), "input:name1")]
+			n2 := c13Names[x.Choose(len(c13Names), "input:name2")]
+			n3 := c13Names[x.Choose(len(c13Names), "input:name3")]
+			if n1 == n2 || n2 == n3 || n1 == n3 {
+				x.Case("skip-equal", false)
+				return
+			}
+			q := c13Qty[x.Choose(len(c13Qty), "input:qty")]
+			log := "2021/01/24:\n  " + n1 + ": " + q + "\n  " + n2 + ": 1\n  " + n3 + ": -1\n  " + n2 + ": 0.5\n"
+			want := []csvWant{{"2021-01-24", n1, exactDec(q)}, {"2021-01-24", n2, exactDec("1.5")}, {"2021-01-24", n3, exactDec("-1")}}
+			x.Case(n1+"|"+n2+"|"+n3+"|"+q, true)
+			verify(x, appCase{Args: []string{"csv", "log"}, Files: map[string]string{"food.yaml": "", "log.yaml": log}}, want, 3, "log")
+		})
+	}
 	w.Explore("csv-database", ExploreOpts{ShardDepth: 2}, func(x *Exec) {
 		n1 := c13Names[x.Choose(len(c13Names), "input:recipe")]
 		n2 := c13Names[x.Choose(len(c13Names), "input:element")]
